@@ -1172,6 +1172,10 @@ func EvalProgram(progSrc string, files []InputFile, rootSelectors []string, stdo
 			if err == errExit {
 				return &ev, nil
 			}
+			if err == errNext {
+				// outside the pattern rules, next just leaves the rule
+				continue
+			}
 			return &ev, err
 		}
 	}
@@ -1213,6 +1217,9 @@ func EvalProgram(progSrc string, files []InputFile, rootSelectors []string, stdo
 						if err == errExit {
 							return &ev, nil
 						}
+						if err == errNext {
+							continue
+						}
 						return &ev, err
 					}
 				}
@@ -1233,6 +1240,9 @@ func EvalProgram(progSrc string, files []InputFile, rootSelectors []string, stdo
 						if err == errExit {
 							return &ev, nil
 						}
+						if err == errNext {
+							continue
+						}
 						return &ev, err
 					}
 				}
@@ -1252,6 +1262,10 @@ func EvalProgram(progSrc string, files []InputFile, rootSelectors []string, stdo
 		if err := ev.evalStatement(rule.Body); err != nil {
 			if err == errExit {
 				return &ev, nil
+			}
+			if err == errNext {
+				// outside the pattern rules, next just leaves the rule
+				continue
 			}
 			return &ev, err
 		}
